@@ -496,9 +496,9 @@ func sameIndexAddr(v ssa.Value, ia *ssa.IndexAddr) bool {
 func (c *Ctx) hashStoreReaders() {
 	const R = "E10.hash-store-readers"
 	allowed := map[string]string{
-		"boc.newImmutableCell":         "constructor: appends the hashes in order and chains the previous one",
-		"(*boc.immutableCell).Hash":   "accessor: index = mask.Apply(level).HashIndex()",
-		"(*boc.immutableCell).Depth":  "accessor: index = mask.Apply(level).HashIndex()",
+		"boc.newImmutableCell":       "constructor: appends the hashes in order and chains the previous one",
+		"(*boc.immutableCell).Hash":  "accessor: index = mask.Apply(level).HashIndex()",
+		"(*boc.immutableCell).Depth": "accessor: index = mask.Apply(level).HashIndex()",
 	}
 	n := 0
 	for _, f := range c.moduleFuncs("boc", "tlb", "ton", "wallet", "liteapi") {
